@@ -350,10 +350,17 @@ pub struct Runner {
     pub done: Vec<Call>,
     pub steps: usize,
     pub desynced: bool,
+    /// blind run: keys() is not asked around every call (the model's alive set stands in for it),
+    /// so that nothing the implementation postpones until somebody looks is woken by the harness;
+    /// the caller compares everything once, at the end (`engine::final_look`)
+    pub blind: bool,
 }
 
 impl Runner {
     pub fn new(cfg: Cfg) -> Self {
+        // the foreign objects of Call::Noise start afresh with every history (replay files
+        // reproduce from a fresh process)
+        crate::noise::reset();
         Self {
             cfg,
             snapshot: None,
@@ -363,6 +370,7 @@ impl Runner {
             done: vec![],
             steps: 0,
             desynced: false,
+            blind: false,
         }
     }
 
@@ -380,7 +388,7 @@ impl Runner {
             Call::Clone | Call::SaveLoad | Call::Snapshot | Call::RefreshSnapshot => true,
             Call::Slice(v) | Call::SliceSome(v, _) => m.present(*v) && m.reachable(*v).is_some_and(|r| r.len() <= 14),
             Call::SliceAny(v) => m.present(*v),
-            Call::Checkpoint => true,
+            Call::Checkpoint | Call::Noise(_) | Call::Masquerade => true,
             Call::CloneInto { cap, ids } => *cap >= 1 && ids.iter().all(|i| i < cap),
             Call::Merge { h, left } => {
                 h.nodes.iter().all(|n| n.id < h.cap)
@@ -451,8 +459,11 @@ impl Runner {
             };
         }
         self.done.push(call.clone());
-        let keys_before = self.g.keys();
+        // a blind run looks at the implementation only where the model needs the answer
+        let blind = self.blind && !matches!(call, Call::ScriptNew { .. } | Call::Merge { .. });
+        let keys_before = if blind { self.m.alive() } else { self.g.keys() };
         let n = self.cfg.n;
+        let cap0 = self.cfg.cap;
         let mut replacement: Option<Box<dyn G>> = None;
         let mut hgraph: Option<Box<dyn G>> = None;
         let mut h_before = None;
@@ -532,6 +543,44 @@ impl Runner {
                         .map(|s| observe_slice(&*s))
                         .map_err(|e| format!("{e:#}")),
                 ),
+                Call::Masquerade => {
+                    let keep = g.clone_box();
+                    let cap = cap0.max(1);
+                    let k = cap.min(10);
+                    let mut other = new_graph(n, cap);
+                    for v in 0..k {
+                        other.add(v);
+                    }
+                    let foo = crate::lab::Lab::Str("foo".into()).direct();
+                    for v in 0..k.saturating_sub(1) {
+                        other.bind(v, v + 1, crate::lab::Lab::Alpha(0).direct());
+                        if n >= 2 {
+                            other.bind(v, (v + 2) % k, foo);
+                        }
+                    }
+                    if k >= 3 {
+                        other.put(1, &hex_of(&[0x4D; 9]));
+                        other.put(2, &hex_of(&[1, 2]));
+                    }
+                    let _ = g.clone_from_dyn(&*other);
+                    for v in 0..k {
+                        let _ = g.kid(v, crate::lab::Lab::Alpha(0).direct());
+                        let _ = g.kid(v, foo);
+                        let _ = g.kids(v);
+                        let _ = g.v_print(v);
+                    }
+                    let _ = g.slice(0);
+                    let _ = g.inspect(0);
+                    let _ = g.to_xml();
+                    let _ = g.to_dot();
+                    let _ = g.debug();
+                    let _ = g.clone_from_dyn(&*keep);
+                    Ret::Unit
+                }
+                Call::Noise(k) => {
+                    crate::noise::disturb(n, *k);
+                    Ret::Unit
+                }
                 Call::Checkpoint => {
                     let p = tmp_file("ckpt");
                     let r = g.save(&p);
@@ -584,8 +633,11 @@ impl Runner {
         if let Some(sn) = new_snapshot {
             self.snapshot = Some(sn);
         }
-        let keys_after =
-            catch_unwind(AssertUnwindSafe(|| self.g.keys())).unwrap_or_else(|_| vec![usize::MAX]);
+        let mut keys_after = if blind {
+            vec![]
+        } else {
+            catch_unwind(AssertUnwindSafe(|| self.g.keys())).unwrap_or_else(|_| vec![usize::MAX])
+        };
 
         // ---- model + history facts
         let mut hist_first_read = false;
@@ -639,7 +691,7 @@ impl Runner {
             }
             Call::Kid(v, l) => Exp::Kid(self.m.kid(*v, l)),
             Call::Kids(v) => Exp::Kids(self.m.get(*v).edges.clone()),
-            Call::Clone | Call::Snapshot | Call::RefreshSnapshot | Call::CloneInto { .. } | Call::SliceSome(..) | Call::SliceAny(_) | Call::Checkpoint => Exp::None,
+            Call::Clone | Call::Snapshot | Call::RefreshSnapshot | Call::CloneInto { .. } | Call::SliceSome(..) | Call::SliceAny(_) | Call::Checkpoint | Call::Noise(_) | Call::Masquerade => Exp::None,
             Call::SaveLoad => {
                 self.m.reset_allocator();
                 self.hist.returned.clear();
@@ -707,6 +759,9 @@ impl Runner {
                 }
             }
         };
+        if blind {
+            keys_after = self.m.alive();
+        }
         let desync = keys_after != self.m.alive();
         if desync {
             self.desynced = true;
